@@ -136,7 +136,7 @@ impl<'a> RtcpPacketWriter for UnknownBuilder<'a> {
             return Err(RtcpWriteError::DataLen32bitMultiple(self.data.len()));
         }
 
-        Ok(Unknown::MIN_PACKET_LEN + self.data.len() + self.padding as usize)
+        check_packet_len(Unknown::MIN_PACKET_LEN + self.data.len() + self.padding as usize)
     }
 
     /// Write this Unknown packet data into `buf` without any validity checks.
